@@ -52,14 +52,20 @@ def main():
     lock = threading.Lock()
 
     def work(r):
-        rel, q, kind, desc, status, hit = r
-        lineno = int(desc.split(":")[1].split()[0])
+        rel, q, kind, desc, status, hit = r[:6]
         src = open(os.path.join("/repo", rel), encoding="utf-8").read()
         fn = dict(functions(ast.parse(src)))[q]
-        cand = [(k, st) for (k, st) in ms.simple_statements(fn) if k == kind and st.lineno == lineno]
+        cand = ms.sites(fn, kind)
+        if len(r) > 6:
+            cand = cand[r[6]:r[6] + 1]
+        else:
+            lineno = int(desc.split(":")[1].split()[0])
+            cand = [(k, st) for (k, st) in cand if ms.site_line(k, st) == lineno]
         if not cand:
             return
         new = ms.make(src, kind, cand[0][1])
+        if new is None:
+            return
         wt = wts.get()
         try:
             p = os.path.join(wt, rel)
